@@ -72,6 +72,7 @@ class Spec:
     def __init__(self, out, case, intern=None):
         self.out, self.case = out, case
         self.intern = intern or mio.Interner()
+        self.names = list(case.get('names', NAMES)) if isinstance(case, dict) else list(NAMES)
         self.gens = {}          # class -> classifiers of its generic super types (-1: none), in order
         self.frozen = set()     # (instance, declaration id): the default was edited after the instance looked at it
         self.supers = {}
@@ -178,6 +179,34 @@ class Spec:
             self.fail('default-or-multiplicity', f'{where}: {n!r} on instance {i} reads {obs}, declared '
                       f'{"many" if d["many"] else "single"} with default {d["default"]} (expected {want}){typed}', stale)
 
+    def check_views(self, i, bits, where):
+        """The class-level views of instance i (no instance slot involved): every name of the run is listed by
+        dir / eAllStructuralFeatures / findEStructuralFeature / eAllAttributes+eAllReferences / the Python class /
+        eAllOperations iff the class or a transitive super type (either channel) declares it."""
+        if self.out is None:
+            return
+        c = self.inst[i]
+        for j, n in enumerate(self.names):
+            in_dir, in_all, found, in_attr, in_ref, on_type, in_ops = bits[7 * j:7 * j + 7]
+            D = self.decls(c, n)
+            O = self.opdecl(c, n)
+            want_kind = None
+            if D and all(d['ftype'] == 0 for d in D):
+                want_kind = (1, 0)
+            elif D and all(d['ftype'] != 0 for d in D):
+                want_kind = (0, 1)
+            for label, got, want in (('dir(instance)', in_dir, bool(D) or O), ('eAllStructuralFeatures()', in_all, bool(D)),
+                                     ('findEStructuralFeature()', found, bool(D)), ('hasattr(type(instance))', on_type, bool(D) or O),
+                                     ('eAllOperations()', in_ops, O)):
+                if bool(got) != bool(want):
+                    self.fail('view', f'{where}: {label} of instance {i} (class {c}) says {bool(got)} for {n!r}, '
+                              f'declared in the closure: {bool(want)}')
+            if want_kind is not None and (in_attr, in_ref) != want_kind:
+                self.fail('view', f'{where}: eAllAttributes/eAllReferences of class {c} list {n!r} as {(in_attr, in_ref)}, '
+                          f'declared {want_kind}')
+            if not D and (in_attr or in_ref):
+                self.fail('view', f'{where}: eAllAttributes/eAllReferences of class {c} list the undeclared {n!r}')
+
     def touch(self, i, n):
         D = self.decls(self.inst[i], n)
         if D:
@@ -218,6 +247,32 @@ class Spec:
                 del gs[:]
             elif k == 'movegen':
                 self.gens.setdefault(op[3], []).append(gs.pop(op[2]))
+            if code != 0:
+                self.fail('edit-raises', f'{where}: raised (code {code})', culprit=k)
+                self.broken = True
+        elif k == 'look':
+            if not self.broken and code == 0:
+                self.check_views(op[1], list(payload), where)
+            elif not self.broken:
+                self.fail('view-raises', f'{where}: asking the views raised (code {code})')
+        elif k == 'movefeat':
+            _, c, name, dcl, via = op
+            d = next(x for x in self.feats[c] if x['name'] == name)
+            self.feats[c].remove(d)
+            if dcl:
+                self.feats[dcl].append(d)
+            if code != 0:
+                self.fail('edit-raises', f'{where}: raised (code {code})', culprit=k)
+                self.broken = True
+        elif k == 'moveop':
+            _, c, name, dcl, via = op
+            self.ops[c].remove(name)
+            if dcl:
+                self.ops[dcl].append(name)
+            if code != 0:
+                self.fail('edit-raises', f'{where}: raised (code {code})', culprit=k)
+                self.broken = True
+        elif k == 'pkg':
             if code != 0:
                 self.fail('edit-raises', f'{where}: raised (code {code})', culprit=k)
                 self.broken = True
@@ -682,6 +737,120 @@ class DefaultsGen(GenericGen):
         return True
 
 
+EDIT_OPS = ('newclass', 'addsuper', 'rmsuper', 'clearsupers', 'popsuper', 'setsupers', 'replsuper', 'addfeat', 'rmfeat',
+            'clearfeats', 'popfeat', 'addop', 'rmop', 'clearops', 'popop', 'addgen', 'retgen', 'rmgen', 'cleargens', 'movegen',
+            'movefeat', 'moveop', 'addattr')
+
+
+class ViewsGen(GenericGen):
+    """Deep hierarchies (chains of 3 and more levels are favoured); the class-level views of EVERY instance are asked
+    before and after every edit ('look'), so that whatever a class remembers about its views is warm when a class far
+    above changes; features and operations also move between classes through their single-valued end
+    (x.eContainingClass = Other / None) and through the collection of the other class."""
+
+    def __init__(self, rng, maxc, nedits):
+        super().__init__(rng, maxc, nedits, share=0.1)
+        self.quiet = False
+
+    def rand_supers(self, k):
+        if k > 1 and self.rng.random() < 0.6:
+            return [k - 1]
+        return super().rand_supers(k)
+
+    def looks(self):
+        for i in range(len(self.sp.inst)):
+            super().emit(['look', i])
+
+    def emit(self, op):
+        edit = op[0] in EDIT_OPS and not self.quiet
+        if edit and self.rng.random() < 0.8:
+            self.looks()
+        super().emit(op)
+        if op[0] == 'newclass' and not self.quiet:
+            super().emit(['newinst', len(self.sp.supers)])
+        if edit:
+            self.looks()
+
+    def step(self, ncls):
+        r, sp = self.rng, self.sp
+        if r.random() >= 0.3:
+            return super().step(ncls)
+        nc = len(sp.supers)
+        x = r.random()
+        if x < 0.45:
+            owners = [(c, d['name']) for c in range(1, nc + 1) for d in sp.feats[c]]
+            if not owners:
+                return False
+            c, name = r.choice(owners)
+            ds = [d for d in range(0, nc + 1) if d != c and (d == 0 or not any(f['name'] == name for f in sp.feats[d]))]
+            d = r.choice(ds)
+            self.emit(['movefeat', c, name, d, 'container' if (d == 0 or r.random() < 0.7) else 'append'])
+        elif x < 0.8:
+            owners = [(c, n) for c in range(1, nc + 1) for n in sp.ops[c]]
+            if not owners:
+                return False
+            c, name = r.choice(owners)
+            ds = [d for d in range(0, nc + 1) if d != c and (d == 0 or name not in sp.ops[d])]
+            d = r.choice(ds)
+            self.emit(['moveop', c, name, d, 'container' if (d == 0 or r.random() < 0.7) else 'append'])
+        else:
+            self.emit(['pkg', r.randint(1, nc), r.choice(['set', 'add', 'unset'])])
+        return True
+
+
+def views_systematic():
+    """A <- B <- C <- D and an unrelated E, one instance of each; every view of every instance asked; ONE edit at the top
+    (or a feature / operation moved to another class); every view asked again on the old instances and on new ones."""
+    base = [['newclass', []], ['newclass', [1]], ['newclass', [2]], ['newclass', [3]], ['newclass', []],
+            ['addfeat', 1, 'x', 0, 0, 5, 'append'], ['addfeat', 5, 'z', 0, 1, 0, 'append'], ['addop', 1, 'f', [], 'append'],
+            ['addfeat', 2, 'y', 1, 0, -1, 'append']]
+    base += [['newinst', c] for c in (1, 2, 3, 4, 5)]
+    looks = [['look', i] for i in range(5)]
+    after = [['newinst', c] for c in (1, 2, 3, 4, 5)] + [['look', i] for i in range(10)]
+    edits = [[['addfeat', 1, 'z', 0, 0, 0, 'append']], [['rmfeat', 1, 'x']], [['clearfeats', 1, 'clear']], [['addop', 1, 'g', [], 'append']],
+             [['rmop', 1, 'f']], [['addsuper', 1, 5, 'append']], [['addgen', 1, 5, 'before']], [['addsuper', 2, 5, 'append']],
+             [['rmsuper', 2, 1]], [['rmsuper', 3, 2]], [['addsuper', 1, 5, 'append'], ['look', 3], ['rmsuper', 1, 5]],
+             [['addgen', 1, 5, 'after'], ['look', 3], ['retgen', 1, 0, -1]], [['addfeat', 5, 'x', 0, 0, 0, 'append'], ['rmfeat', 5, 'z']],
+             [['addattr', 1, 'z', 'EString', 'falsy', 'ctor']], [['pkg', 1, 'set'], ['pkg', 3, 'add'], ['pkg', 1, 'unset']]]
+    for d in (5, 2, 4, 0):
+        for via in ('container', 'append'):
+            if d == 0 and via == 'append':
+                continue
+            edits.append([['movefeat', 1, 'x', d, via]])
+            edits.append([['moveop', 1, 'f', d, via]])
+            edits.append([['movefeat', 2, 'y', d if d != 2 else 1, via], ['moveop', 1, 'f', d, via]])
+    edits.append([['movefeat', 1, 'x', 5, 'container'], ['look', 3], ['movefeat', 5, 'x', 1, 'container']])
+    edits.append([['moveop', 1, 'f', 5, 'container'], ['look', 3], ['moveop', 5, 'f', 3, 'container']])
+    return [base + looks + e + after for e in edits]
+
+
+def views_scenarios(ctx, out, intern=None, stats=None):
+    """Implementation + oracle only, PRNG stream 'C12:views'."""
+    common.use_repo()
+    intern = intern or mio.Interner()
+    thorough = ctx.tier == 'thorough'
+    rng = common.rng_for(ctx.seed, 'C12:views')
+    fams = [(h, 'views-systematic') for h in views_systematic()]
+    for _ in range(5000 if thorough else 500):
+        fams.append((ViewsGen(rng, 5, rng.randint(3, 10 if thorough else 7)).history(), 'views-random'))
+    for h, section in fams:
+        case = {'section': section, 'scenario': 'views', 'seed': ctx.seed, 'tier': ctx.tier, 'history': h, 'names': NAMES}
+        r = mio.run_impl(h, NAMES, intern)
+        if r['flag_after']:
+            restore_linearisation()
+        judge(out, h, NAMES, r['tokens'], r['per_op'], case, intern)
+        if r['isinstance_disagreements']:
+            out.fail({'property': 'C12', 'clause': 'isinstance-vs-EcoreUtils', 'culprit': 'isinstance', 'qualifiers': []},
+                     f'isinstance and EcoreUtils.isinstance disagree: {r["isinstance_disagreements"]}', case)
+        if stats is not None:
+            stats['oracle_only_histories']['views'] = stats['oracle_only_histories'].get('views', 0) + 1
+            stats['ops'] += len(h)
+            for op in h:
+                stats['op_kinds'][op[0]] = stats['op_kinds'].get(op[0], 0) + 1
+            if section == 'views-random' and not any(c.get('scenario') == 'views' for c in stats['samples']):
+                stats['samples'].append(case)
+
+
 def generic_systematic():
     """A (x, f), B (y), C, D(C) with instances of each; C gets A as a generic super type (three ways); one edit of that
     channel; instances created afterwards; an old, untouched instance of C is looked at; the final dump judges."""
@@ -971,6 +1140,7 @@ def run(ctx, out):
             stats['samples'].append(dict(deferred[0]))
     model.close()
     oracle_only_families(ctx, out, intern, stats)
+    views_scenarios(ctx, out, intern, stats)
     if mio.flag_installed():
         out.diff('Metasubinstance.mro is replaced in the checking process at the end of the run', {'global': True})
         restore_linearisation()
@@ -989,7 +1159,10 @@ def run(ctx, out):
                 'inheritance channel (classifier set before/after, re-targeted, set to None, removed, popped, cleared, moved), '
                 'mixed with plain super types, annotations and type parameters edited on the way, matrix from the closure '
                 'over both channels; defaults family (stream C12:defaults): attributes over 7 data types x declared '
-                'default absent/falsy/truthy x 5 ways of declaring it, edited afterwards, read before and after'
+                'default absent/falsy/truthy x 5 ways of declaring it, edited afterwards, read before and after; '
+                'views family (stream C12:views): hierarchies 3+ levels deep, dir / eAllStructuralFeatures / findEStructuralFeature / '
+                'eAllAttributes / eAllReferences / eAllOperations / hasattr(type) of every instance asked before and after every edit, '
+                'features and operations re-parented through eContainingClass (single-valued end) and through the other collection'
                 % (5 if thorough else 4, 16 if thorough else 10),
         'traces_validated_against_impl': stats['histories'],
         'c3_graphs': stats['c3_graphs'], 'c3_conflicts': stats['c3_conflicts'],
@@ -1027,6 +1200,8 @@ def replay(ctx, rep):
     if case.get('section') == 'c3':
         print('C3 table', case['table'], '(compare Model/C3.v with type.mro by hand)')
         return 1
+    if case.get('scenario') == 'views':
+        return common.scenario_replay(ctx, rep, {'views': views_scenarios})
     intern = mio.Interner()
     if case.get('init_flag'):
         mio.run_impl(mio.FLAG_TRIGGER, [], intern)
